@@ -122,6 +122,10 @@ def _positions(draw):
         rec["page_header"] = {"text": ["@P0" + p()], "text_convert": conv}
     if draw(st.booleans()):
         rec["page_footer"] = {"text": ["@Q0" + p()], "text_convert": conv}
+    if draw(st.sampled_from([False] * 4 + [True])):
+        # mostly inside the text path (conversion / escaping modules), where the library has "warn and keep the text" handlers
+        rec["fault_in"] = draw(st.sampled_from(["text", "text", "text", "any"]))
+        rec["fault_k"] = draw(st.integers(1, 400)) if rec["fault_in"] == "text" else draw(st.integers(1, 3000))
     return rec
 
 
@@ -218,11 +222,26 @@ def write_and_read(recipe, name):
     with open(path, "wb") as f:          # the path already holds a longer file: nothing of it may survive
         f.write(b"{\\rtf1 OLD CONTENT \\u20013* }" * 4000)
     with contextlib.redirect_stdout(io.StringIO()):
-        built.doc.write_rtf(path)
+        if recipe.get("fault_k"):
+            # an exception surfaces at the k-th call into the library during the export: if the library raises, nothing is
+            # judged; if it carries on (handlers that "warn and keep going"), whatever it writes must still read back exactly
+            from ..faults import run_with_fault
+            outc, fired, _ = run_with_fault(lambda: built.doc.write_rtf(path), recipe["fault_k"],
+                                            only=("text_conversion", "row.py") if recipe.get("fault_in") == "text" else None)
+            if outc[0] == "exc":
+                if os.path.exists(path):
+                    os.remove(path)
+                raise FaultSurfaced()
+        else:
+            built.doc.write_rtf(path)
     with open(path, "rb") as f:
         data = f.read()
     os.remove(path)
     return read(data)
+
+
+class FaultSurfaced(Exception):
+    pass
 
 
 def lexical(res, d, where):
@@ -316,6 +335,9 @@ def check(case) -> Result:
             check_whole(case, res)
             return res
         d = write_and_read(case, "pos")
+    except FaultSurfaced:
+        res.excluded = "injected_fault_surfaced_as_exception"
+        return res
     except Exception as e:
         import traceback
         res.fail("export_raises", type(e).__name__, traceback.format_exc()[-300:])
@@ -367,7 +389,7 @@ def check(case) -> Result:
         if spec:
             got = [b.text for blocks in lst for b in blocks if isinstance(b, Para) and b.text]
             compare(res, tagname, "\n".join(spec["text"]), got[0] if got else "<missing>")
-    res.labels = ["positions", "convert=" + ("on" if body.get("text_convert") else "off"), "strategy=" + ("page_by" if body.get("page_by") else "subline" if body.get("subline_by") else "plain")]
+    res.labels = ["positions", "history=" + ("fault_swallowed_during_export" if case.get("fault_k") else "none"), "convert=" + ("on" if body.get("text_convert") else "off"), "strategy=" + ("page_by" if body.get("page_by") else "subline" if body.get("subline_by") else "plain")]
     res.nontrivial = True
     return res
 
